@@ -495,25 +495,92 @@ Proof. vm_compute. reflexivity. Qed.
 
 Lemma before_sep_forge h x : ~ In 0 h -> before_sep [0] (h ++ 0 :: x) = h.
 Proof.
-  induction h as [|c h IH]; intro H; simpl.
+  induction h as [|c h IH]; intro H.
   - reflexivity.
-  - destruct (c =? 0) eqn:E.
-    + apply N.eqb_eq in E. exfalso. apply H. left. auto.
-    + simpl. rewrite IH; [reflexivity|]. intro Hin. apply H. now right.
+  - cbn [app before_sep starts_with].
+    assert (E : (0 =? c) = false) by (apply N.eqb_neq; intro; subst; apply H; left; auto).
+    rewrite E. cbn [andb]. rewrite IH; [reflexivity|]. intro Hin. apply H. now right.
+Qed.
+
+Lemma before_sep_none h : ~ In 0 h -> before_sep [0] h = h.
+Proof.
+  induction h as [|c h IH]; intro H; [reflexivity|].
+  cbn [before_sep starts_with].
+  assert (E : (0 =? c) = false) by (apply N.eqb_neq; intro; subst; apply H; left; auto).
+  rewrite E. cbn [andb]. rewrite IH; [reflexivity|]. intro Hin. apply H. now right.
 Qed.
 
 (* the Forge marker and everything after it never influence routing *)
 Theorem clean_host_forge h x : ~ In 0 h -> clean_host (h ++ 0 :: x) = clean_host h.
 Proof.
-  intro H. unfold clean_host. rewrite (before_sep_forge h x H).
-  f_equal. f_equal. clear x. induction h as [|c h IH]; [reflexivity|].
-  simpl. destruct (c =? 0) eqn:E.
-  - apply N.eqb_eq in E. exfalso. apply H. left. auto.
-  - simpl. rewrite IH; [reflexivity|]. intro Hin. apply H. now right.
+  intro H. unfold clean_host. now rewrite (before_sep_forge h x H), (before_sep_none h H).
 Qed.
 
 Lemma drop_dots_head s : match drop_dots s with c :: _ => c <> 46 | [] => True end.
 Proof.
   induction s as [|c r IH]; simpl; [exact I|].
   destruct (c =? 46) eqn:E; [exact IH|]. apply N.eqb_neq in E. exact E.
+Qed.
+
+(* ---------- the route search, stated against the declarative relation ---------- *)
+
+Definition pat_matches (dot : N -> bool) (host pat : list N) (gs : groups) : Prop :=
+  Matches dot (lower_cps (utf8_decode pat)) (lower_cps (utf8_decode host)) gs.
+
+Theorem first_route : forall dot h rs i p gsb,
+  find_route dot h rs = Some (i, p, gsb) ->
+  exists r l1 l2 gs,
+    nth_error rs (N.to_nat i) = Some r /\ fst r = l1 ++ p :: l2
+    /\ gsb = map utf8_encode gs
+    /\ pat_matches dot h p gs
+    /\ (forall gs', pat_matches dot h p gs' -> lex_le (map (@length N) gs) (map (@length N) gs'))
+    /\ (forall q, In q l1 -> forall gs', ~ pat_matches dot h q gs')
+    /\ (forall k r', (k < N.to_nat i)%nat -> nth_error rs k = Some r' ->
+          forall q, In q (fst r') -> forall gs', ~ pat_matches dot h q gs').
+Proof.
+  intros dot h rs i p gsb H. unfold find_route in H.
+  destruct (find_route_from_spec _ _ _ _ _ _ _ H) as [k [r [l1 [l2 [Hi [Hnth [Hl [Hm [Hn He]]]]]]]]].
+  destruct (match_bytes_some _ _ _ _ Hm) as [gs [Hg [Hmat Hlazy]]].
+  assert (Hk : N.to_nat i = k) by lia. rewrite Hk.
+  exists r, l1, l2, gs. repeat split; auto.
+  - intros q Hq. apply match_bytes_none. auto.
+  - intros k' r' Hlt Hn' q Hq. apply match_bytes_none. eapply He; eauto.
+Qed.
+
+Theorem no_route : forall dot subst raw rs,
+  find_route dot (clean_host raw) rs = None ->
+  (forall r q, In r rs -> In q (fst r) -> forall gs, ~ pat_matches dot (clean_host raw) q gs)
+  /\ route_outcome dot subst raw rs = (1, None, []).
+Proof.
+  intros dot subst raw rs H. split.
+  - intros r q Hr Hq. apply match_bytes_none. eapply find_route_from_none; eauto.
+  - unfold route_outcome. now rewrite H.
+Qed.
+
+(* a route that is found is what route_outcome reports, with every backend substituted *)
+Theorem found_route_outcome : forall dot subst raw rs i p gs b bs,
+  find_route dot (clean_host raw) rs = Some (i, p, gs) ->
+  snd (nth (N.to_nat i) rs ([], [])) = b :: bs ->
+  route_outcome dot subst raw rs = (0, Some (i, p, gs), map (fun t => subst t gs) (b :: bs)).
+Proof.
+  intros dot subst raw rs i p gs b bs H Hb. unfold route_outcome. rewrite H, Hb. reflexivity.
+Qed.
+
+Example first_route_example :
+  let rs := [([[120]], [[49]]); ([[97; 42]; [42; 46; 101; 120]], [[36; 49; 58; 50]])] in  (* "x" ; "a*", "*.ex" -> "$1:2" *)
+  route_outcome spec_dot spec_subst [66; 46; 69; 88; 46; 0; 70] rs                           (* "B.EX.\0F" *)
+  = (0, Some (1, [42; 46; 101; 120], [[98]]), [[98; 58; 50]]).
+Proof. vm_compute. reflexivity. Qed.
+
+Example matches_example :
+  Matches spec_dot [42; 120; 42] [97; 120; 98; 120; 99] [[97]; [98; 120; 99]]
+  /\ Matches spec_dot [42; 120; 42] [97; 120; 98; 120; 99] [[97; 120; 98]; [99]]
+  /\ glob_match spec_dot [42; 120; 42] [97; 120; 98; 120; 99] = Some [[97]; [98; 120; 99]].
+Proof.
+  split; [|split].
+  - apply (M_star spec_dot [97]); [reflexivity|]. apply M_lit; try discriminate.
+    apply (M_star spec_dot [98; 120; 99] [] []); [reflexivity|]. constructor.
+  - apply (M_star spec_dot [97; 120; 98]); [reflexivity|]. apply M_lit; try discriminate.
+    apply (M_star spec_dot [99] [] []); [reflexivity|]. constructor.
+  - vm_compute. reflexivity.
 Qed.
